@@ -288,12 +288,18 @@ class VersionGen:
         if kind == "If":
             branches = []
             for b in ("then", "else"):
-                bn, res = self.chain(x, list(outer), rng.randrange(1, 3), sensitive, depth, want_depth)
+                binits, bouter = [], list(outer)
+                if rng.random() < 0.3:
+                    bi = nm("bw")
+                    binits.append(NH.from_array(np.full(SHAPE, 0.75, np.float32), bi))
+                    bouter.append(bi)
+                    self.features.add("body-initializer")
+                bn, res = self.chain(x, bouter, rng.randrange(1, 3), sensitive, depth, want_depth)
                 if res == x:  # a body result must be produced inside
                     r2 = nm()
                     bn.append(H.make_node("Identity", [res], [r2]))
                     res = r2
-                branches.append(H.make_graph(bn, f"{b}_{out}", [], [_f(res)]))
+                branches.append(H.make_graph(bn, f"{b}_{out}", [], [_f(res)], initializer=binits))
             nodes.append(H.make_node("If", [self.cond], [out], then_branch=branches[0], else_branch=branches[1]))
         elif kind == "Loop":
             it, ci, xi, co = nm("it"), nm("ci"), nm("xi"), nm("co")
